@@ -10,7 +10,7 @@ from . import c01
 
 PID = "C06"
 HEADER = ["From Coq Require Import List ZArith QArith Qcanon.",
-          "From DV Require Import Model.Core Model.Clt Model.Leaves Model.QcInst Model.Mpe Model.MpeRun.",
+          "From DV Require Import Model.Core Model.Clt Model.Leaves Model.QcInst Model.Mpe Model.MpeRun Proofs.MpePositiveQc.",
           "Import ListNotations. Open Scope Z_scope."]
 
 
@@ -126,7 +126,7 @@ def main(tier, seed, replay=None):
                     rep.violation(dict(kind="missing-entry-not-filled-in-domain", circuit=tab.brief(), row=sorted(c.items()), out=y.tolist()), True)
         nm = f"p{i}"
         rws = [f"({G.row_coq(c, width)}, {cells_coq(y, width)})" for c, y in zip(rows, Y)]
-        body.append(f"Definition {nm}_t : qtable :=\n  {tab.coq()}.\nDefinition {nm} := run_pcase (Build_pcase {nm}_t {width}%nat {C.coq_list(rws)}).")
+        body.append(f"Definition {nm}_t : qtable :=\n  {tab.coq()}.\nDefinition {nm} := (if side_b {nm}_t then 0 else 64) :: run_pcase (Build_pcase {nm}_t {width}%nat {C.coq_list(rws)}).")
         names.append(nm); cur.append(dict(kind="circuit", tab=tab, rows=rows, Y=Y, root=root, width=width))
         dist["circuits"] += 1; dist["rows"] += len(rows)
         for c in rows:
@@ -171,12 +171,20 @@ def main(tier, seed, replay=None):
             else:
                 groups[-1].append(z)
         for cs, codes in zip(meta, groups):
+            if cs["kind"] == "circuit":
+                # hypothesis of C06_positive_qc (non-negative parameters, positive modes, CLT leaves inside their scope)
+                if codes[0] != 0:
+                    rep.violation(dict(kind="positivity-side-condition-fails-on-generated-circuit", model=cs["tab"].brief()), False)
+                codes = codes[1:]
             for r, y, code in zip(cs["rows"], cs["Y"], codes):
                 rep.count(dict(c=cs["tab"].brief(), r=sorted(r.items())), nontrivial=(code not in (16, 32) and any(v is None for v in r.values())))
                 if code == 32:
                     zero_ev += 1
                 elif code == 16:
                     ties += 1
+                elif code == 2:
+                    rep.violation(dict(kind="completed-row-has-zero-probability-but-evidence-has-not", model=cs["tab"].brief(),
+                                       row=sorted(r.items()), impl_mpe=y.tolist()), True)
                 elif code:
                     flagged.append((cs, r, y))
     rep.cov["numerical_ties_excluded"] = ties
